@@ -140,8 +140,11 @@ class Sched(object):
     def quiesce(self, max_steps=400):
         n = 0
         last = -1
+        counts = {}
+        for co in self.cos:
+            co.spinning = False
         while True:
-            r = self.runnable()
+            r = [c for c in self.runnable() if not getattr(c, "spinning", False)]
             if not r:
                 return
             n += 1
@@ -151,6 +154,13 @@ class Sched(object):
             nxt = [c for c in r if self.cos.index(c) > last]
             co = nxt[0] if nxt else r[0]
             last = self.cos.index(co)
+            counts[id(co)] = counts.get(id(co), 0) + 1
+            if counts[id(co)] > 80 and co.why == "poll-round":
+                # the thread has gone round its poll loop 80 times without anything else changing: it spins (busy loop);
+                # leave it aside until the next external event
+                co.spinning = True
+                self.world.spinners.append(co.name)
+                continue
             self.step(co)
 
     def kill_all(self):
@@ -424,6 +434,11 @@ class FakePoll(object):
     def poll(self, timeout=None):
         w = self.WORLD[0]
         ev = self._ready()
+        if ev and timeout is not None and timeout > 0 and w.sched.current is not None:
+            # a poller loop (finite timeout): every round is a scheduling point, so that a thread that is handed the same
+            # events over and over is seen to spin instead of hanging the exploration
+            w.sched.block("poll-round", lambda: True, always_yield=True)
+            return self._ready()
         if ev or (timeout is not None and timeout <= 0):
             return ev
         if timeout is None:
@@ -432,6 +447,9 @@ class FakePoll(object):
         # finite timeout: returns when something is ready, or (virtual time) when the server is being closed
         w.sched.block("poll-tick", lambda: bool(self._ready()) or w.closing, always_yield=w.closing)
         return self._ready()
+
+    def poll_yielding(self, timeout):
+        pass
 
 
 class FakeThread(object):
@@ -562,6 +580,7 @@ class World(object):
         self.next_fd = 10
         self.closing = False
         self.finished = False
+        self.spinners = []          # threads seen to busy-loop
         self.tick = 0               # number of external events so far
         self.slow_hooks = False     # disconnect hooks take until the next external event
         self.children = []
